@@ -44,6 +44,17 @@ def proof_part(v, pid, extra_obligation_files=()):
         "print_assumptions": res["assumptions"],
         "trusted_base": TRUSTED_BASE_COMMON + ["Print Assumptions: " + ("; ".join("%s: %s" % (k, a.split("\n")[0]) for k, a in res["assumptions"].items()) or "n/a")],
     })
+    if os.environ.get("VERIF_TIER") == "thorough" or getattr(v, "tier", "") == "thorough":
+        # independent re-check of the compiled property file and everything it depends on
+        p = run(["timeout", "1500", "coqchk", "-silent", "-o", "-R", COQ, "Sigc", "Sigc.Properties_%s" % pid], cwd=COQ)
+        txt = (p.stdout + p.stderr)
+        m = re.search(r"\* Axioms:(.*?)\n\s*\n", txt, re.S)
+        axioms = " ".join(m.group(1).split()) if m else "unparsed"
+        v.coverage["coqchk"] = {"rc": p.returncode, "axioms": axioms,
+                                "summary": [l.strip() for l in txt.split("\n") if l.strip().startswith("*")][:6]}
+        v.coverage["trusted_base"].append("coqchk -o (independent checker): axioms: " + axioms)
+        if p.returncode != 0 or axioms != "<none>":
+            problems.append("coqchk: rc=%d axioms=%s" % (p.returncode, axioms))
     return (not problems), problems
 
 
